@@ -440,4 +440,73 @@ theorem readV3000_write (m : Mol) (dc : Nat) (hw : WFMol m) (hne : m.atoms ≠ [
     mapIdxFrom_length, hmk, pure, Except.pure, hfin]
   rfl
 
+theorem isV2000Compatible_iff (a b : Nat) : isV2000Compatible a b = true ↔ a < 1000 ∧ b < 1000 := by
+  unfold isV2000Compatible v2000MaxCount
+  rw [Bool.and_eq_true, decide_eq_true_iff, decide_eq_true_iff]
+
+
+theorem ctab_roundtrip_v2000 (m : Mol) (d : Nat) (ls : List Line) (hw : WFMol m)
+    (hn : m.atoms.length < 1000) (hm : m.bonds.length < 1000) (h : writeV2000 m d = .ok ls) :
+    ∃ dc, codeOfBond d = some dc ∧ readCtab ls = .ok (m.rt dc) := by
+  unfold writeV2000 at h
+  split at h
+  · cases h
+  · split at h
+    · cases h
+    · rename_i dc hdc
+      cases h
+      refine ⟨dc, hdc, ?_⟩
+      have hv := (counts_read m.atoms.length m.bonds.length hn hm).2.2
+      have e : [countsLineV2000 m.atoms.length m.bonds.length] ++ m.atoms.map atomLineV2000
+            ++ m.bonds.map (bondLineV2000 dc) ++ chargeLines m ++ [mEnd]
+          = countsLineV2000 m.atoms.length m.bonds.length ::
+            (m.atoms.map atomLineV2000 ++ (m.bonds.map (bondLineV2000 dc) ++ (chargeLines m ++ [mEnd]))) := by
+        simp [List.append_assoc]
+      rw [e]
+      unfold readCtab
+      simp only [hv]
+      have : ("V2000".toList == "V2000".toList) = true := by decide
+      simp only [this, if_true]
+      exact readV2000_write m dc (codeOfBond_lt hdc) hw hn hm
+
+theorem ctab_roundtrip_v3000 (m : Mol) (d : Nat) (ls : List Line) (hw : WFMol m)
+    (hne : m.atoms ≠ []) (h : writeV3000 m d = .ok ls) :
+    ∃ dc, codeOfBond d = some dc ∧ readCtab ls = .ok (m.rt dc) := by
+  unfold writeV3000 at h
+  split at h
+  · cases h
+  · split at h
+    · cases h
+    · rename_i dc hdc
+      cases h
+      refine ⟨dc, hdc, ?_⟩
+      have hv : getVersion compatLine = "V3000".toList := by decide
+      unfold readCtab
+      simp only [List.singleton_append, List.cons_append, hv]
+      have h1 : ("V3000".toList == "V2000".toList) = false := by decide
+      have h2 : ("V3000".toList == "V3000".toList) = true := by decide
+      simp only [h1, h2, Bool.false_eq_true, if_false, if_true]
+      have := readV3000_write m dc hw hne
+      simpa only [List.singleton_append, List.cons_append] using this
+
+theorem ctab_roundtrip (m : Mol) (d : Nat) (v : Version) (ls : List Line) (hw : WFMol m)
+    (hne : m.atoms ≠ []) (h : writeCtab m d v = .ok ls) :
+    ∃ dc, codeOfBond d = some dc ∧ readCtab ls = .ok (m.rt dc) := by
+  cases v with
+  | auto =>
+    by_cases hc : isV2000Compatible m.atoms.length m.bonds.length = true
+    · simp only [writeCtab, hc, if_true] at h
+      have hb := (isV2000Compatible_iff _ _).mp hc
+      exact ctab_roundtrip_v2000 m d ls hw hb.1 hb.2 h
+    · simp only [writeCtab, hc] at h
+      exact ctab_roundtrip_v3000 m d ls hw hne h
+  | v2000 =>
+    by_cases hc : isV2000Compatible m.atoms.length m.bonds.length = true
+    · simp only [writeCtab, hc] at h
+      have hb := (isV2000Compatible_iff _ _).mp hc
+      exact ctab_roundtrip_v2000 m d ls hw hb.1 hb.2 (by simpa using h)
+    · simp [writeCtab, hc] at h
+  | v3000 => exact ctab_roundtrip_v3000 m d ls hw hne h
+  | unknown => simp [writeCtab] at h
+
 end BiotiteModel.C18
